@@ -517,7 +517,7 @@ def check_dump_with_adj(out, net, D, runs, wit, approx):
         out.ratio("f: Adj(dump) x vs dn/de/du", worst, t1)
         out.ratio("f: Adj(dump) x rotated vs x/y/z-correction", worst_xyz, t2)
         if worst > t1 or worst_xyz > t2:
-            out.violation("project-equations:x:%s" % alg,
+            out.violation("project-equations:x:%s:%s" % (alg, "singular" if d else "regular"),
                           "dumped system solved by Adj/%s: x differs from gama-g3's printed corrections by %.3g mm (dn/de/du) / "
                           "%.3g m (x/y/z-correction)" % (alg, worst, worst_xyz), wit)
             ok = False
@@ -537,7 +537,7 @@ def check_dump_with_adj(out, net, D, runs, wit, approx):
             t = ref.tol(max(float(np.max(np.abs(ref.xp))) if ref.n else 0.0, xs)) * 10
             out.ratio("f: Adj(dump) x vs numpy reference", e, t)
             if e > t:
-                out.violation("project-equations:reference:%s" % alg,
+                out.violation("project-equations:reference:%s:%s" % (alg, "singular" if ref.defect else "regular"),
                               "Adj/%s on the dumped system: x differs from the numpy minimum-norm least-squares solution by %.3g "
                               "(kappa %.3g, defect %d)" % (alg, e, ref.kappa, ref.defect), wit)
                 ok = False
@@ -557,10 +557,12 @@ def ctx_for(ref, Pref, R, net):
     for pid in net.pts:
         axis[pid] = float(np.sqrt(X[pid][0] ** 2 + X[pid][1] ** 2))
     bs = float(np.max(np.abs(Pref["b"]))) if len(Pref["b"]) else 0.0
-    return dict(tn=ref.tol(1.0) * 10, xs=xs, bs=bs, axis=axis, ss_scale=max(float(ref.bw @ ref.bw), 1e-6))
+    return dict(tn=ref.tol(1.0) * 10, xs=xs, bs=bs, axis=axis, ss_scale=max(float(ref.bw @ ref.bw), 1e-6),
+                defect=ref.defect)
 
 
 def algorithms_agree(out, runs, ctx, wit, variant):
+    sing = "singular" if ctx["defect"] else "regular"
     F = {alg: flatten(g["R"]) for alg, g in runs.items() if g["R"] is not None}
     algs = [a for a in ALGS if a in F]
     seen = set()
@@ -570,7 +572,7 @@ def algorithms_agree(out, runs, ctx, wit, variant):
             for cls, r in ratios.items():
                 out.ratio("c: algorithms, " + cls, r, 1.0)
             for name, msg, e, tol in bad:
-                key = "algorithms:%s:%s-vs-%s" % (name, algs[a], algs[b])
+                key = "algorithms:%s:%s-vs-%s:%s" % (name, algs[a], algs[b], sing)
                 if key in seen:
                     continue
                 seen.add(key)
@@ -775,7 +777,7 @@ def _work(out, seed, i, tier, tmp, keep_input):
         t = 1.01e-3 + ref2.tol(xs) * 10 + rel * xs * min(ref2.kappa, 100.0)
         out.ratio("reference step: |x - x_ref| / tol (%s)" % ("angular" if ang else "dh" if hasdh else "plain"), e, t)
         if e > t:
-            out.violation("reference-step:%s" % mix,
+            out.violation("reference-step:%s:%s" % (mix, alg + ":singular" if ref2.defect else "any"),
                           "corrections differ from the numpy Gauss-Newton step (own Jacobian) by %.3g mm (max |x| %.3g mm, "
                           "tolerance %.3g, kappa %.3g) with %s" % (e, xs, t, ref2.kappa, alg), wit_for("noisy", alg, textN, g))
     # relation f
@@ -811,7 +813,8 @@ def _work(out, seed, i, tier, tmp, keep_input):
                 if name in seen:
                     continue
                 seen.add(name)
-                out.violation("order:%s" % name, "%s after permuting points / clusters / observations [%s]" % (msg, alg), w)
+                out.violation("order:%s:%s:%s" % (name, alg, "singular" if ref2.defect else "regular"),
+                              "%s after permuting points / clusters / observations [%s]" % (msg, alg), w)
     # relation e (second half): another constrained subset changes only the datum
     if ref2.defect > 0:
         alg = ALGS[(i + 2) % 4]
@@ -837,8 +840,8 @@ def _work(out, seed, i, tier, tmp, keep_input):
                     for name, msg, e, tol in bad:
                         if name not in seen:
                             seen.add(name)
-                            out.violation("datum-invariance:%s" % name, "%s after changing the constrained subset [%s]" % (msg, alg), w)
-                    if lin:
+                            out.violation("datum-invariance:%s:%s" % (name, alg), "%s after changing the constrained subset [%s]" % (msg, alg), w)
+                    if lin and ref2.defect == 3 and not any(o.kind == "xyz" for _, o in N.all_obs()):
                         # translation defect: the two solutions differ by one common shift
                         sh = []
                         for pid, Pa in okN[alg]["R"]["points"].items():
@@ -851,7 +854,7 @@ def _work(out, seed, i, tier, tmp, keep_input):
                             t = 8.2e-9 + 4 * ctx["tn"] * ctx["xs"] / 1000
                             out.ratio("e: common shift of a free vector network", e, t)
                             if e > t:
-                                out.violation("datum-invariance:shape", "adjusted coordinates of two constrained subsets differ by "
+                                out.violation("datum-invariance:shape:%s" % alg, "adjusted coordinates of two constrained subsets differ by "
                                               "more than a common translation (%.3g m)" % e, w)
 
 
